@@ -95,6 +95,31 @@ pub fn denied(ip: &IpAddr, deny: &[String], allow: &[String]) -> bool {
     deny.iter().any(|n| in_net(ip, n)) && !allow.iter().any(|n| in_net(ip, n))
 }
 
+/// Filter class of an address under the configured filters (independent prefix arithmetic):
+///  * `both-deny`  excluded by the answer filter and by the server filter
+///  * `ans-deny`   excluded by the answer filter only (the server filter would let it be contacted)
+///  * `srv-deny`   excluded by the server filter only, in a world that also configures an answer
+///                 filter which permits it (deny_server != deny_answers)
+///  * `ans-allow`  inside a deny_answers net but rescued by allow_answers (permitted)
+///  * `plain`      everything else
+pub fn addr_class(ip: &IpAddr, o: &crate::world::Opts) -> &'static str {
+    let ad = denied(ip, &o.deny_answers, &o.allow_answers);
+    let sd = denied(ip, &o.deny_server, &o.allow_server);
+    if ad && sd {
+        "both-deny"
+    } else if ad {
+        "ans-deny"
+    } else if sd && !o.deny_answers.is_empty() {
+        "srv-deny"
+    } else if !sd && o.deny_answers.iter().any(|n| in_net(ip, n)) {
+        "ans-allow"
+    } else {
+        "plain"
+    }
+}
+
+pub const AF_CLASSES: &[&str] = &["ans-deny", "ans-allow", "srv-deny", "both-deny"];
+
 // ---------------------------------------------------------------------------------------------
 // views of hickory records
 
